@@ -97,6 +97,10 @@ type Rep interface {
 	FP(parts ...interface{})
 	Nontrivial()
 	Label(l string)
+	// Sub records one evaluation of a multi-execution case (fault enumeration) right away; SkipOuter
+	// keeps the enclosing generated case from being counted as an evaluation of its own.
+	Sub(fp string, nontrivial bool)
+	SkipOuter()
 }
 
 type base struct {
@@ -104,8 +108,12 @@ type base struct {
 	r          *stats.Rec
 	fp         strings.Builder
 	nontrivial bool
+	skipOuter  bool
 	caseVal    interface{}
 }
+
+func (b *base) Sub(fp string, nontrivial bool) { b.r.Case(fp, nontrivial) }
+func (b *base) SkipOuter()                     { b.skipOuter = true }
 
 func (b *base) FP(parts ...interface{}) {
 	for _, p := range parts {
@@ -168,7 +176,9 @@ func (b *base) finish() {
 		}
 		return
 	}
-	b.r.Case(b.fp.String(), b.nontrivial)
+	if !b.skipOuter {
+		b.r.Case(b.fp.String(), b.nontrivial)
+	}
 	if b.nontrivial && b.caseVal != nil {
 		cv := b.caseVal
 		b.r.Sample(func() interface{} {
